@@ -57,7 +57,7 @@ func (c *vhRedialConn) Write(p []byte) (int, error) {
 }
 
 func VH_C14_send_redial() {
-	limit := vrtChoose(3)
+	limit := []int{0, 1, 2, 6, 10}[vrtChoose(5)] // 10 is the library default
 	attempts := int(vrtParam("attempts", 4))
 	dialFail := make([]bool, attempts)
 	writeFail := make([]bool, attempts)
@@ -75,6 +75,8 @@ func VH_C14_send_redial() {
 	vrtRedirect("net.Dial", func(network, address string) (net.Conn, error) {
 		i := dials
 		dials++
+		// checked as it happens: a sender that never gives up would otherwise never return
+		vrtAssert(dials <= limit+1, "attempts-bounded-by-reconnect-limit")
 		if i >= attempts || dialFail[i] {
 			return nil, errors.New("connection refused")
 		}
@@ -106,9 +108,9 @@ func VH_C14_send_redial() {
 		vrtReach("dead-lettered-after-redials")
 	}
 	// recovery: once the peer is reachable again a later message is delivered
-	before := dials
-	dialFail = make([]bool, attempts+before+1)
-	writeFail = make([]bool, attempts+before+1)
+	dials = 0
+	dialFail = make([]bool, limit+2)
+	writeFail = make([]bool, limit+2)
 	attempts = len(dialFail)
 	m.Enqueue(env)
 	wrote2 := 0
